@@ -58,6 +58,14 @@ def judge(case, impl, model, spec, ctx):
     # a scripted failure must tear the tunnel down (never a clean end)
     if res[0] == 0 and model is not None and untok(model.split()[0])[0] != 0:
         out.append(("violation", "the tunnel reported a clean end although a failure was injected"))
+    # a close by the idle timer cuts the relay short: it must not happen while bytes were accepted within the last T
+    if not out and res[0] == 1 and len(t) >= 4 and untok(t[1])[3] == 0 and untok(t[2])[3] == 0:
+        T = toks[0][0]
+        for side, lw in zip(("client->peer", "peer->client"), untok(t[3])):
+            if lw > 0 and (lw - 1) > res[1] - T:
+                out.append(("violation", "%s: the tunnel was closed by the idle timer at %d ms, cutting the relay short, although bytes were forwarded at %d ms (T = %d ms)"
+                            % (side, res[1], lw - 1, T)))
+                break
     if not out and model is not None and " ".join(impl.split()[:3]) != model:
         out.append(("disagree", "outcome / counters differ from the timed model"))
     return out
